@@ -13,7 +13,10 @@ Definition bufk_eqb (a b : bufk) : bool :=
 
 Definition st_eqb (a b : st) : bool :=
   pos_eqb (pc a) (pc b) && bufk_eqb (buf a) (buf b) && Bool.eqb (gotc a) (gotc b) &&
-  epoch_eqb (bep a) (bep b).
+  epoch_eqb (bep a) (bep b) && Bool.eqb (ed a) (ed b).
+
+Definition implb' (a b : bool) : bool := negb a || b.
+Infix "==>" := implb' (at level 55, right associativity).
 
 Definition pair := (st * re)%type.
 Definition pair_eqb (a b : pair) : bool := st_eqb (fst a) (fst b) && re_eqb (snd a) (snd b).
@@ -184,7 +187,8 @@ Definition app_syms : list sym := flat_map (fun e => [(e, PApp true); (e, PApp f
 Definition chk_noapp (G : list gate_row) (c : cfg) : bool :=
   let t := gate_tab G c in
   forallb (fun s => negb (handshaking s) ||
-                    forallb (fun e => is_abort (fst (step_t t c s e))) app_syms) all_st.
+                    forallb (fun e => let s' := fst (step_t t c s e) in
+                                      is_abort s' || (ed s && st_eqb s' s)) app_syms) all_st.
 
 (* after completion no event leads back into a handshake position or to P_Done *)
 Definition is_post (s : st) : bool := match pc s with P_Done | P_Post => true | _ => false end.
@@ -207,6 +211,34 @@ Definition chk_reneg (G : list gate_row) (c : cfg) : bool :=
       else pos_eqb (pc s') P_Post && Bool.eqb (gotc s') (gotc s) &&
            match w with Some z => Z.eqb z 100 | None => false end) bools) all_st.
 
+(* the early-data window: (a) every record that is processed -- anything but a dropped
+   undecryptable record, a TLS 1.3 ChangeCipherSpec or bytes already buffered -- closes it, in
+   particular the second ClientHello; (b) it is only ever open on a TLS 1.3 server whose first
+   ClientHello offered early data, between that ClientHello and the next processed record;
+   (c) outside the window a record that does not open aborts *)
+Definition undec_sym (c : cfg) (s : st) (e : sym) : bool :=
+  (negb (is_buf (snd e)) && negb (epoch_eqb (fst e) (rd_at c (pc s))) &&
+   negb (v13_at c (pc s) && epoch_eqb (fst e) E0 && match snd e with PCcs _ => true | _ => false end))
+  || (epoch_eqb (rd_at c (pc s)) E0 && match snd e with PApp _ => true | _ => false end).
+Definition chk_window (G : list gate_row) (c : cfg) : bool :=
+  let t := gate_tab G c in
+  forallb (fun s => negb (handshaking s) ||
+    forallb (fun e =>
+      let s' := fst (step_t t c s e) in
+      (* (c) *)
+      (negb (undec_sym c s e) || ed s || is_abort s') &&
+      (* (a) *)
+      (negb (ed s') ||
+       (ed s && (undec_sym c s e || is_buf (snd e) ||
+                 match snd e with PCcs _ => true | _ => false end)) ||
+       (c_early c && c_v13 c && match pc s, snd e with
+                                | S_CH, PH CH _ => true | S_CH, PBufH CH _ => true | _, _ => false end) ||
+       is_abort s') &&
+      (* the second ClientHello closes it *)
+      (match pc s, snd e with
+       | S13_CH2, PH CH _ => epoch_eqb (fst e) E0 | _, _ => false end
+       ==> (negb (ed s') || is_abort s'))) Sigma) all_st.
+
 (* TLS 1.3: while a handshake message is partially received, any record of another type *)
 Definition non_hs_payloads : list payload :=
   [PCcs true; PCcs false; PAlert AWarnNoCert; PAlert AWarn; PAlert AClose; PAlert AFatal;
@@ -217,5 +249,5 @@ Definition chk_interleave (G : list gate_row) (c : cfg) : bool :=
   forallb (fun s =>
     negb (handshaking s && v13_at c (pc s) && bufk_eqb (buf s) BPartial) ||
     forallb (fun e => forallb (fun p =>
-       is_abort (fst (step_t t c s (e, p)))) non_hs_payloads) all_epoch)
+       let s' := fst (step_t t c s (e, p)) in is_abort s' || (ed s && st_eqb s' s)) non_hs_payloads) all_epoch)
   all_st.
